@@ -170,6 +170,7 @@ theorem merge_comm : ∀ (r : Req) (x y : Inter M r), merge r x y = merge r y x
     show (x.1 + y.1, merge sub x.2 y.2) = (y.1 + x.1, merge sub y.2 x.2)
     rw [merge_comm sub, Nat.add_comm]
   | .topHits _ _ _ _, x, y => Hits.merge_comm x y
+  | .composite _ _ _ sub, x, y => KMap.merge_comm _ (entryMerge_comm _ (merge_comm sub)) x y
 
 theorem merge_assoc : ∀ (r : Req) (x y z : Inter M r),
     merge r (merge r x y) z = merge r x (merge r y z)
@@ -192,6 +193,7 @@ theorem merge_assoc : ∀ (r : Req) (x y z : Inter M r),
       = (x.1 + (y.1 + z.1), merge sub x.2 (merge sub y.2 z.2))
     rw [merge_assoc sub, Nat.add_assoc]
   | .topHits _ _ _ _, x, y, z => Hits.merge_assoc x y z
+  | .composite _ _ _ sub, x, y, z => KMap.merge_assoc _ (entryMerge_assoc _ (merge_assoc sub)) x y z
 
 theorem empty_merge : ∀ (r : Req) (x : Inter M r), merge r (empty r) x = x
   | .none, _ => rfl
@@ -209,6 +211,7 @@ theorem empty_merge : ∀ (r : Req) (x : Inter M r), merge r (empty r) x = x
     show (0 + x.1, merge sub (empty sub) x.2) = x
     rw [empty_merge sub, Nat.zero_add]
   | .topHits _ _ _ _, x => Hits.empty_merge x
+  | .composite _ _ _ _, x => KMap.empty_merge _ x
 
 theorem merge_empty (r : Req) (x : Inter M r) : merge r x (empty r) = x := by
   rw [merge_comm, empty_merge]
